@@ -210,6 +210,12 @@ def adv_set(a, k, v):
     ck = _concrete_index(k)
     first, rest = k[0], k[1:]
     vo, isarr = _vals(v, a.d)
+    if not isarr:
+        # conversion errors of the scalar itself (NumPy raises them even when the mask selects nothing),
+        # e.g. a Python float assigned into a datetime64 array
+        sv = snp.shadow_scalar(v) if not isinstance(v, (rnp.ndarray, rnp.generic)) else v
+        if not isinstance(sv, rnp.ndarray) or sv.ndim == 0:
+            rnp.zeros((1,), a.d)[rnp.zeros((1,), bool)] = sv
     vlen = v.n if isinstance(v, ndarray) and v.n is not None else (vo.shape[0] if isarr else None)
     if _is_mask(first) and not rest:
         return _mask_set(a, first, vo, isarr, vlen)
